@@ -21,7 +21,11 @@ Local Open Scope nat_scope.
 (* ---------- workflows ---------- *)
 Definition key := (nat * nat)%type.            (* (node index, field index): pydra's "N3.b" *)
 Inductive binding := BConst (z : Z) | BSplit (vs : list Z) | BUp (j : nat).
-Record node := { n_fields : list binding; n_split : list nat; n_comb : list key }.
+(* n_split: the outer product, one entry per zip group (its first field, the group's "leader");
+   n_zip: (follower, leader) pairs — the follower field is zipped (inner splitter) with the leader;
+   n_osel: for every field, which output (0 or 1) of the upstream node it takes (missing = 0) *)
+Record node := { n_fields : list binding; n_split : list nat; n_zip : list (nat * nat);
+                 n_osel : list nat; n_comb : list key }.
 Definition workflow := list node.
 
 (* values produced by the tagging task: VTag n args = ("T", n, args…); VList = list / StateArray *)
@@ -39,6 +43,24 @@ Fixpoint val_eqb (a b : val) : bool :=
   | VTag n xs, VTag m ys => Nat.eqb n m && go xs ys
   | VList xs, VList ys => go xs ys
   | _, _ => false
+  end.
+
+Definition leader_of (nd : node) (f : nat) : nat :=
+  match find (fun p => Nat.eqb (fst p) f) (n_zip nd) with Some p => snd p | None => f end.
+Definition osel_of (nd : node) (f : nat) : nat := nth f (n_osel nd) 0.
+Definition flen (nd : node) (f : nat) : nat :=
+  match nth_error (n_fields nd) f with Some (BSplit vs) => List.length vs | _ => 0 end.
+(* the shape rule of an inner splitter: zipped fields have equal length, else State.splits raises *)
+Definition zip_ok_node (nd : node) : bool :=
+  forallb (fun p => Nat.eqb (flen nd (fst p)) (flen nd (snd p))) (n_zip nd).
+
+(* the value of output o of a job (or of a list / StateArray of jobs): the tagging task returns
+   out_o = ("T", nid, o, args...); jobs are stored without the output index *)
+Fixpoint outsel (o : nat) (v : val) : val :=
+  match v with
+  | VInt z => VInt z
+  | VTag n args => VTag n (VInt (Z.of_nat o) :: args)
+  | VList l => VList (map (outsel o) l)
   end.
 
 Definition key_eqb (a b : key) : bool := Nat.eqb (fst a) (fst b) && Nat.eqb (snd a) (snd b).
@@ -213,26 +235,22 @@ Definition connect (tab : list mnode) (other : list (nat * list nat)) : hist_acc
   end.
 
 (* ---------- one node ---------- *)
-Definition resolve_all (tab : list mnode) (n : nat) (fields : list binding) : option mnode :=
-  option_map (fun args => MStateless (VTag n args))
-    (all_some (map (fun b => match b with
-                             | BConst z => Some (VInt z)
-                             | BSplit _ => None                       (* split value without splitter: rejected by Task.split *)
-                             | BUp j => get_value_of tab j None
-                             end) fields)).
-
-Fixpoint job_args (wf : workflow) (tab : list mnode) (n f : nat) (fields : list binding) (din dst : row) : list (option val) :=
+Fixpoint job_args (wf : workflow) (tab : list mnode) (n : nat) (nd : node) (f : nat) (fields : list binding) (din dst : row) : list (option val) :=
   match fields with
   | [] => []
   | b :: r =>
-      (match lookup dst (n, f), b with
+      (match lookup dst (n, leader_of nd f), b with
        | Some i, BSplit vs => option_map VInt (nth_error vs i)
        | Some i, _ => None
-       | None, BUp j => get_value_of tab j (lookup din (n, f))
+       | None, BUp j => option_map (outsel (osel_of nd f)) (get_value_of tab j (lookup din (n, f)))
        | None, BConst z => Some (VInt z)
        | None, BSplit _ => None
-       end) :: job_args wf tab n (S f) r din dst
+       end) :: job_args wf tab n nd (S f) r din dst
   end.
+
+(* a node without state: _resolve_lazy_inputs with state_index=None for every lazy input *)
+Definition resolve_all (wf : workflow) (tab : list mnode) (n : nat) (nd : node) : option mnode :=
+  option_map (fun args => MStateless (VTag n args)) (all_some (job_args wf tab n nd 0 (n_fields nd) [] [])).
 
 (* prepare_inputs: one column per connected field, all fields fed by the same upstream state carry
    the index into that state's final list *)
@@ -242,7 +260,7 @@ Definition keys_prev (n : nat) (other : list (nat * list nat)) (prev : list nat)
   flat_map (fun x => map (fun f => (n, f)) (fields_of other x)) prev.
 
 Definition job_of (wf : workflow) (tab : list mnode) (n : nat) (nd : node) (dd : row * row) : option val :=
-  option_map (VTag n) (all_some (job_args wf tab n 0 (n_fields nd) (fst dd) (snd dd))).
+  option_map (VTag n) (all_some (job_args wf tab n nd 0 (n_fields nd) (fst dd) (snd dd))).
 
 Definition build_state (wf : workflow) (tab : list mnode) (n : nat) (nd : node)
            (prev : list nat) (other : list (nat * list nat)) : option mnode :=
@@ -250,6 +268,8 @@ Definition build_state (wf : workflow) (tab : list mnode) (n : nat) (nd : node)
   let comb := n_comb nd in
   let prevf := flat_map (ent_rpnf tab) prev in
   let rpnf := filter (fun k => negb (memk k comb)) (prevf ++ cur) in
+  (* State.splits: "Operands ... do not have same shape" *)
+  if negb (zip_ok_node nd) then None else
   (* prepare_states_ind *)
   let keys := flat_map (ent_keysf tab) prev ++ cur in
   let curbox := box_idx (map (key_len wf) cur) in
@@ -274,7 +294,7 @@ Definition build_state (wf : workflow) (tab : list mnode) (n : nat) (nd : node)
 
 Definition step (wf : workflow) (tab : list mnode) (n : nat) (nd : node) : option mnode :=
   let other0 := upstream tab (n_fields nd) in
-  if is_nil (n_split nd) && is_nil (n_comb nd) && is_nil other0 then resolve_all tab n (n_fields nd)
+  if is_nil (n_split nd) && is_nil (n_comb nd) && is_nil other0 then resolve_all wf tab n nd
   else
   match (if is_nil other0 then Some ([], []) else connect tab other0) with
   | None => None
@@ -305,3 +325,20 @@ Fixpoint nodupk (l : list key) : bool :=
    any combiner (where it has been validated: diamonds, deep shares, relays next to other inputs, ...);
    with combiners the code has further failure modes there that are not modelled *)
 Definition tie_region (wf : workflow) : bool := forallb (fun nd => is_nil (n_comb nd)) wf.
+
+(* ---------- combiner names: a combined field combines its whole zip group ---------- *)
+(* State.current_combiner_all / prev_state_combiner_all (splits_groups -> combine_final_groups): every field in
+   the same group as a combined field is combined too.  The model keeps one key per zip group (the leader), so
+   the closure is: replace every name by its group's leader, drop repetitions. *)
+Definition node_at (wf : workflow) (j : nat) : node :=
+  nth j wf {| n_fields := []; n_split := []; n_zip := []; n_osel := []; n_comb := [] |}.
+Definition canon_key (wf : workflow) (k : key) : key := (fst k, leader_of (node_at wf (fst k)) (snd k)).
+Fixpoint dedupk (l : list key) : list key :=
+  match l with [] => [] | k :: r => k :: filter (fun k' => negb (key_eqb k' k)) (dedupk r) end.
+Definition normalize (wf : workflow) : workflow :=
+  map (fun nd => {| n_fields := n_fields nd; n_split := n_split nd; n_zip := n_zip nd; n_osel := n_osel nd;
+                    n_comb := dedupk (map (canon_key wf) (n_comb nd)) |}) wf.
+
+(* both outputs of every node, in node order: what the harness observes *)
+Definition outs2 (l : list val) : list val := flat_map (fun v => [outsel 0 v; outsel 1 v]) l.
+Definition model_run2 (wf : workflow) : option (list val) := option_map outs2 (model_run (normalize wf)).
